@@ -574,6 +574,6 @@ def run():
         "SQLite engine defect worked around (skipped and counted as oracle-sqlite-right-join-pushdown): an outer WHERE over a UNION ALL sub-query whose operands are RIGHT JOINs lets null-extended rows through (reproduced on SQLite 3.40.1 and the bundled 3.49)",
         "a pair where BOTH sides fail to compile/execute has no result to compare and is counted (both-fail), not judged: the base's failure is C01's / C07's subject",
         "let/into rewrites are applied only where the continuation has no qualified reference to the renamed relation (t.x / u.x) and the named frame has no duplicate column names; `select` of the full frame only on frames of distinct unqualified names",
-        "function-call sites: expression slots of filter / derive / select / sort in the main pipeline; aggregate and window arguments and join conditions are not abstracted",
+        "function-call sites: expression slots of filter / derive / select / sort and the `name = fn expr` items of aggregate / group-aggregate / window / group-window steps in the main pipeline (the generated function's body may be the aggregate or window call itself: `x -> sum x`, `x n -> lag n x`); join conditions are not abstracted",
     ]
-    ck.finish(TRUSTED, "streams by rewrite kind: let (let + into, every prefix length), func (every expression slot x call variants pos/named-omit/named-pass/piped/piped-named/module/module2), trfunc (every run of 1..3 transforms as a transform function), filter (split of every conjunctive filter, merge of every adjacent pair), identity (derive {} / filter true / take 1.. / select of the full frame at every position, sort directly before every sort), module (declarations produced by let / function rewrites moved into one module, two nested modules, or one module with a different same-named decoy left at top level), compose (random chains of 2 and 3 rewrites), tworef (append / self-join / aliased direct self-join of one let-table referenced twice, also behind a module path), module-siblings and pointfree (directed). Each pair on 1..3 instances x {sqlite, generic}; engine = abstract rewrites re-judged by the reference semantics inside Coq; beta = `beta F C` of Model/Subst.v computed inside Coq equals the expression the generated call replaced. distinct = hash of (base, rewritten, target, instance); non-trivial = non-empty base result or differing outcome kinds")
+    ck.finish(TRUSTED, "streams by rewrite kind: let (let + into, every prefix length), func (every expression slot x call variants pos/named-omit/named-pass/piped/piped-named/module/module2), trfunc (every run of 1..3 transforms as a transform function), filter (split of every conjunctive filter, merge of every adjacent pair), identity (derive {} / filter true / take 1.. / select of the full frame at every position, sort directly before every sort), module (declarations produced by let / function rewrites moved into one module, two nested modules, or one module with a different same-named decoy left at top level), compose (random chains of 2 and 3 rewrites), tworef (append / self-join / aliased direct self-join of one let-table referenced twice, also behind a module path), module-siblings and pointfree (directed), and a directed family `.. | sort | take/window/group-take | filter/derive/..` (the order must cross whatever boundary a rewrite puts after the sort). Each pair on 1..3 instances x {sqlite, generic}; engine = abstract rewrites re-judged by the reference semantics inside Coq; beta = `beta F C` of Model/Subst.v computed inside Coq equals the expression the generated call replaced. distinct = hash of (base, rewritten, target, instance); non-trivial = non-empty base result or differing outcome kinds")
